@@ -11,8 +11,9 @@
    they are WRITTEN TO and the events together with the connection whose address
    they CARRY.
 
-   Connection ids are numbers; the harness gives connection n the client address
-   10.9.(n/16 / 256).(n/16 mod 256) : 40000 + n mod 16, so ip_of n = n / 16.          *)
+   Connection ids are numbers; the harness gives connection n a client address of one of
+   several families (IPv4 in 4-byte and in 16-byte form, IPv6 global / link-local with zone /
+   with the low bytes of an IPv4 host) - see "client addresses" below: ip_bytes, port_of.  *)
 From Coq Require Export List NArith Bool.
 Export ListNotations.
 Local Open Scope N_scope.
@@ -163,10 +164,65 @@ Definition telnet_lstep (c : N * N * N) (x : input) : (N * N * N) * list reply *
   end.
 
 (* ===================================================================================== *)
+(* client addresses.  A connection id stands for a client address (harness/cmd/c03:       *)
+(* remoteIP, remoteZone, remotePort):                                                      *)
+(*   family f = id / 2^20, host h = (id mod 2^20) / 16, source port 40000 + id mod 16      *)
+(*   f = 0, id < 4096 : 10.9.(h/256).(h mod 256) as a 4-byte net.IP                        *)
+(*   f = 0, otherwise : 2001:db8:9::<h>                                                    *)
+(*   f = 1            : the IPv4 host 10.9.x.y as a 16-byte net.IP, ::ffff:10.9.x.y        *)
+(*   f = 2            : fe80::9:<h> with zone eth0 (link-local)                            *)
+(*   f >= 3           : 2001:db8:9::a09:<h> - an IPv6 host whose low 4 bytes are 10.9.x.y  *)
+(* ===================================================================================== *)
+Fixpoint be_value (acc : N) (l : list N) : N :=
+  match l with [] => acc | b :: r => be_value (acc * 256 + b) r end.
+
+Definition V4PREFIX : list N := [0;0;0;0;0;0;0;0;0;0;255;255].
+(* net.IP.To16: the 4-byte form of an IPv4 address and its 16-byte (v4-mapped) form are ONE host
+   for everything that goes through net.IP.String / Equal (observed on the unchanged tree: the
+   limiter bucket, the tftp transfer table, source-ip of the events) *)
+Definition to16 (ip : list N) : list N :=
+  match length ip with 4%nat => V4PREFIX ++ ip | _ => ip end.
+Definition is_v4mapped (ip : list N) : bool :=
+  match ip with
+  | [0;0;0;0;0;0;0;0;0;0;255;255;_;_;_;_] => true
+  | _ => false
+  end.
+
+(* keys as numbers.  ip_key = net.IP.String() (the limiter's key, source-ip of an event);
+   peer_key = the String() of a net.UDPAddr / net.TCPAddr: "ip%zone:port" (the key of
+   the tftp transfer table).  Zones are small codes (0 = none), ports are below 65536.
+   Proofs.peer_key_injective: both are one-to-one on hosts resp. (host, zone, port) for ALL
+   4- and 16-byte addresses. *)
+Definition ZONES := 4.
+Definition PORTS := 65536.
+Definition ip_key (ip : list N) : N := be_value 0 (to16 ip).
+Definition peer_key (ip : list N) (zone port : N) : N := (ip_key ip * ZONES + zone) * PORTS + port.
+
+Definition FAM := 1048576.
+Definition fam_of (i : N) : N := i / FAM.
+Definition host_of (i : N) : N := (i mod FAM) / 16.
+Definition hi_byte (h : N) : N := (h / 256) mod 256.
+Definition lo_byte (h : N) : N := h mod 256.
+Definition ip_bytes (i : N) : list N :=
+  let h := host_of i in
+  let f := fam_of i in
+  if f =? 0 then
+    if i mod FAM <? 4096 then [10; 9; hi_byte h; lo_byte h]
+    else [32;1;13;184;0;9;0;0;0;0;0;0;0;0; hi_byte h; lo_byte h]
+  else if f =? 1 then V4PREFIX ++ [10; 9; hi_byte h; lo_byte h]
+  else if f =? 2 then [254;128;0;0;0;0;0;0;0;0;0;0;0;9; hi_byte h; lo_byte h]
+  else [32;1;13;184;0;9;0;0;0;0;0;0;10;9; hi_byte h; lo_byte h].
+Definition zone_of (i : N) : N := if fam_of i =? 2 then 1 else 0.
+Definition port_of (i : N) : N := 40000 + i mod 16.
+
+(* the client's host as the limiter and the events see it / the client as the transfer table sees it *)
+Definition ip_of (i : N) : N := ip_key (ip_bytes i).
+Definition peer_of (i : N) : N := peer_key (ip_bytes i) (zone_of i) (port_of i).
+
+(* ===================================================================================== *)
 (* tftp (services/tftp.go): one datagram = one Handle; shared: limiter (by IP), buffers   *)
 (* (by remote address string)                                                              *)
 (* ===================================================================================== *)
-Definition ip_of (i : N) : N := i / 16.
 Definition BURST := 4.
 
 (* services.Limiter: one token bucket per key (the client IP as printed by net.IP.String), burst 4,
@@ -182,38 +238,48 @@ Fixpoint lim_run (l : limiter) (ks : list N) : list bool :=
   | k :: r => let '(b, l') := lim_allow l k in b :: lim_run l' r
   end.
 
+(* what a client uploads: every data byte of connection i is fill_of i, so the bytes of two
+   clients never look alike; the digest of a file is the polynomial hash of its bytes *)
+Definition HASHP := 999983.
+Definition fill_of (i : N) : N := 1 + i mod 250.
+Definition hash_fill (h b len : N) : N := N.iter len (fun x => (x * 31 + b) mod HASHP) h.
+
 Record tftp_shared := mkTftp {
-  t_used : limiter;                  (* ip -> datagrams admitted by the limiter *)
-  t_bufs : list (N * (N * N))        (* client address -> (file, bytes received) *)
+  t_used : limiter;                      (* ip key -> datagrams admitted by the limiter *)
+  t_bufs : list (N * (N * N * N))        (* peer key -> (file, bytes received, digest of them) *)
 }.
 Definition tftp_s0 := mkTftp [] [].
 
 Definition used_of (s : tftp_shared) (ip : N) : N := lim_used (t_used s) ip.
 
 (* tokens: 1 RRQ file a, 2 WRQ file a, 3 DATA block a with 512 bytes, 4 DATA block a with
-   100 bytes (final), 5 ACK, 6 unknown opcode.
+   100 bytes (final), 5 ACK, 6 unknown opcode, 7 DATA block a with no bytes (empty final block).
    replies: 5001 ERROR(1), 5004 ERROR(4), 4000+blk ACK;
-   events: (1,file) read, (2,file) write, (3, file*100000 + bytes) write-file              *)
+   events: (1,file) read, (2,file) write, (3, (digest*10 + file)*100000 + bytes) write-file   *)
+Definition data_len (t : N) : N := if t =? 3 then 512 else if t =? 4 then 100 else 0.
 Definition tftp_step (st : sys tftp_shared unit) (i : N) (x : input) : sys tftp_shared unit * outs :=
   match x with
   | Tok t a _ =>
       let s := shared st in
       let ip := ip_of i in
+      let pk := peer_of i in
       if BURST <=? used_of s ip then (st, no_outs)
       else
         let s1 := mkTftp (store ip (used_of s ip + 1) (t_used s)) (t_bufs s) in
         if t =? 1 then (mkSys s1 (conns st), ([(i, 5001)], [(i, mkEv 1 a)]))
         else if t =? 2 then
-          (mkSys (mkTftp (t_used s1) (store i (a, 0) (t_bufs s1))) (conns st), ([(i, 4000)], [(i, mkEv 2 a)]))
-        else if (t =? 3) || (t =? 4) then
-          match lookup i (t_bufs s1) with
+          (mkSys (mkTftp (t_used s1) (store pk (a, 0, 0) (t_bufs s1))) (conns st), ([(i, 4000)], [(i, mkEv 2 a)]))
+        else if (t =? 3) || (t =? 4) || (t =? 7) then
+          match lookup pk (t_bufs s1) with
           | None => (mkSys s1 (conns st), ([(i, 5004)], []))
-          | Some (f, n) =>
+          | Some (f, n, d) =>
               if t =? 3 then
-                (mkSys (mkTftp (t_used s1) (store i (f, n + 512) (t_bufs s1))) (conns st), ([(i, 4000 + a)], []))
+                (mkSys (mkTftp (t_used s1) (store pk (f, n + 512, hash_fill d (fill_of i) 512) (t_bufs s1))) (conns st),
+                 ([(i, 4000 + a)], []))
               else
-                (mkSys (mkTftp (t_used s1) (remove_key i (t_bufs s1))) (conns st),
-                 ([(i, 4000 + a)], [(i, mkEv 3 (f * 100000 + (n + 100)))]))
+                (mkSys (mkTftp (t_used s1) (remove_key pk (t_bufs s1))) (conns st),
+                 ([(i, 4000 + a)],
+                  [(i, mkEv 3 ((hash_fill d (fill_of i) (data_len t) * 10 + f) * 100000 + (n + data_len t)))]))
           end
         else (mkSys s1 (conns st), no_outs)
   | _ => (st, no_outs)
@@ -272,7 +338,7 @@ Definition change_dir (cwd : path) (a : N) : option path :=
 Definition dir_code (p : path) : N := match dir_index p with Some k => k | None => 99 end.
 
 (* the destination (local) address of connection n is 192.0.2.(local_of n) *)
-Definition local_of (i : N) : N := 1 + i mod 3.
+Definition local_of (i : N) : N := 1 + (i mod FAM) mod 3.
 
 (* per connection: phase, logged in, reqUser (0 none, 1 anonymous, 2 other) *)
 Record ftp_conn := mkFC { fc_ph : N; fc_user : bool; fc_req : N }.
